@@ -37,7 +37,7 @@ func buildClientModel(p *Prog, ro *Roles) *clientModel {
 			continue
 		}
 		for _, cs := range callsIn(f, false) {
-			if isProtoWrite(cs) && strings.Contains(strip(T.T(recvOf(cs))), ".conn") && !ro.rootedInCall(recvOf(cs)) {
+			if isProtoWrite(cs) && isClientConnRecv(recvOf(cs)) && !ro.rootedInCall(recvOf(cs)) {
 				if c, ok := cs.Instr.(*ssa.Call); ok {
 					cm.Send, cm.Write = f, c
 				}
@@ -108,6 +108,20 @@ func buildClientModel(p *Prog, ro *Roles) *clientModel {
 		for _, cs := range callsIn(a, false) {
 			if isProtoReadBytes(cs) {
 				cm.Recv = a
+				cm.Read, _ = cs.Instr.(*ssa.Call)
+			}
+		}
+	}
+	// the receive function is analysed in its inlined view (helpers of package varlink such as a frame type's
+	// payload() are part of it)
+	if cm.Recv != nil {
+		v := p.Inlined(cm.Recv, func(callee *ssa.Function) bool {
+			// exported API (DispatchError, ...) stays a call: the rules name it
+			return fnPkgPath(callee) != pkgVarlink || callee.Object() != nil && callee.Object().Exported()
+		})
+		cm.Recv, cm.Read = v, nil
+		for _, cs := range callsIn(v, false) {
+			if isProtoReadBytes(cs) {
 				cm.Read, _ = cs.Instr.(*ssa.Call)
 			}
 		}
